@@ -19,9 +19,10 @@ CellIndex(c) == ((((c.mode - 1) * 4 + KIdx(c.klen)) * 2 + (c.dir - 1)) * 49 + (c
 
 \* every suite-level error the documented rules attach to the cell
 \* PON: imb_set_session() does not look at the key size, the job check does (AES-128 only, when something is ciphered)
-JobKeyOK(c) == c.mode = PON => c.klen = 16
+\* (AES-128 only, and only when something is ciphered: an XGEM header-only frame needs no key)
+JobKeyOK(c, t) == (c.mode = PON /\ t.len > 0) => c.klen = 16
 SuiteErrs(c) ==
-    (IF ~KeyOK(c.mode, c.klen) \/ ~JobKeyOK(c) THEN {ERR_KEY_LEN} ELSE {})
+    (IF ~KeyOK(c.mode, c.klen) \/ c.mode = PON THEN {ERR_KEY_LEN} ELSE {})
     \cup (IF PartnerHash(c.mode) # 0 /\ c.hash # PartnerHash(c.mode) THEN {ERR_HASH_ALGO} ELSE {})
     \cup (IF PartnerCipher(c.hash) # 0 /\ c.mode # PartnerCipher(c.hash) THEN {ERR_CIPH_MODE} ELSE {})
     \cup (IF ~OrderOK(c) THEN {ERR_CHAIN_ORDER} ELSE {})
@@ -39,7 +40,7 @@ SessionOK(t, c) ==
          /\ t.sess_errno = SuiteErr(c)
 
 Executed(t, c) ==
-    IF SuiteOK(c) /\ OrderOK(c) /\ JobKeyOK(c)
+    IF SuiteOK(c) /\ OrderOK(c) /\ JobKeyOK(c, t)
     THEN \* accepted: both entry points run exactly the planned stages on exactly the planned rows
          /\ t.st = 3 /\ t.errno = 0
          /\ PlanOK(c, Plan(t.stages)) /\ AllVia(t.stages, 0)
